@@ -123,3 +123,26 @@ end GoUefi.C16
 #print axioms GoUefi.C16.C16_verify_independent_of_order
 #print axioms GoUefi.C16.C16_verify_depends_on_raw_md
 #print axioms GoUefi.C16.C16_wrong_cert_rejected
+
+namespace GoUefi.C16
+open GoUefi GoUefi.Impl
+
+/-- F30 repair: `Attributes.Marshal` returns for every attribute value whose object identifiers are
+    encodable — with or without a content type (parsed attributes may lack it; before the repair the
+    builder panicked on the absent identifier).  Parsed attributes only hold identifiers that were
+    decoded, hence encodable. -/
+theorem C16_marshal_returns (a : Attrs) (hct : ∀ ct, a.contentType = some ct → Der.validOID ct = true)
+    (ho : ∀ x ∈ a.other, Der.validOID x.1 = true) : ∃ b, a.marshal = .ok b := by
+  unfold Attrs.marshal attrsBody
+  have hall : (a.other.all fun x => Der.validOID x.1) = true := by
+    rw [List.all_eq_true]; exact ho
+  cases hc : a.contentType with
+  | none => simp [hall]
+  | some ct => simp [hct ct hc, hall]
+
+/-- … in particular without a content type -/
+example : (⟨none, [1, 2], none, [], none⟩ : Attrs).marshal ≠ .panic := by decide +kernel
+
+end GoUefi.C16
+
+#print axioms GoUefi.C16.C16_marshal_returns
